@@ -208,6 +208,36 @@ def _terminal(e):
     return None
 
 
+def _super_init_target(model, mname, cls_name, c):
+    """super(...).__init__(a, b) / Base.__init__(self, a, b) inside class
+    `cls_name` of module `mname` -> (FuncInfo of the inherited initialiser,
+    its qualified name, number of leading parameters not in the call)."""
+    f = c.func
+    if cls_name is None or not (isinstance(f, ast.Attribute) and
+                                f.attr == "__init__"):
+        return None
+    q = None
+    for cq, ci in model.classes.items():
+        if ci.module == mname and ci.name == cls_name:
+            q = cq
+    if q is None:
+        return None
+    recv = f.value
+    if isinstance(recv, ast.Call) and isinstance(recv.func, ast.Name) and \
+            recv.func.id == "super":
+        for bq in model.mro(q)[1:]:
+            bc = model.classes.get(bq)
+            if bc and "__init__" in bc.methods:
+                return bc.methods["__init__"], bc.methods["__init__"].qual, 1
+        return None
+    if isinstance(recv, ast.Name):
+        for bq in model.mro(q)[1:]:
+            bc = model.classes.get(bq)
+            if bc and bc.name == recv.id and "__init__" in bc.methods:
+                return bc.methods["__init__"], bc.methods["__init__"].qual, 0
+    return None
+
+
 def misplaced_arguments(model, modules):
     """Positional arguments that carry the name of one parameter of the callee
     but are bound to a different one: f(a, b, self.timeout) where f's third
@@ -235,13 +265,22 @@ def misplaced_arguments(model, modules):
             else ""
         if short not in modules:
             continue
+        in_class = {}
+        for cd in ast.walk(mi.tree):
+            if isinstance(cd, ast.ClassDef):
+                for x in ast.walk(cd):
+                    if isinstance(x, ast.Call):
+                        in_class[id(x)] = cd.name    # innermost wins (walk order)
         for c in ast.walk(mi.tree):
             if not isinstance(c, ast.Call) or len(c.args) < 2:
                 continue
             nm = call_name(c)
             target = None
             drop = 0
-            if nm in ctor and len(ctor[nm]) == 1:
+            sup = _super_init_target(model, mname, in_class.get(id(c)), c)
+            if sup is not None:
+                target, tq, drop = sup
+            elif nm in ctor and len(ctor[nm]) == 1:
                 target = ctor[nm][0][1]
                 tq = ctor[nm][0][0]
                 drop = 1
@@ -314,6 +353,16 @@ class Store(object):
 class User(object):
     def f(self):
         return Store(self.a, self.b, self.timeout)
+
+
+class Sub(Store):
+    def __init__(self, a, b, timeout=None, check_validity=True):
+        super(Sub, self).__init__(a, b, timeout, check_validity)
+
+
+class Sub2(Store):
+    def __init__(self, a, b, timeout=None, check_validity=True):
+        Store.__init__(self, a, b, check_validity, timeout)
 '''
 
 
@@ -341,7 +390,7 @@ def _misplaced_control():
                     os.environ.pop(k, None)
                 else:
                     os.environ[k] = v
-        return len(misplaced_arguments(mm, {"ctl"})) == 1
+        return len(misplaced_arguments(mm, {"ctl"})) == 3
     finally:
         shutil.rmtree(d, ignore_errors=True)
 
@@ -577,3 +626,145 @@ def _shared_control():
         return got == ["collect", "decode"]
     finally:
         shutil.rmtree(d, ignore_errors=True)
+
+
+# ---------------------------------------------------------------------------
+# derived instance state must be invalidated by the removing operations
+
+def _self_effects(fn):
+    """instance attributes a method assigns, deletes or modifies in place"""
+    out = set()
+    for x in ast.walk(fn):
+        tg = []
+        if isinstance(x, (ast.Assign, ast.Delete)):
+            tg = list(x.targets)
+        elif isinstance(x, (ast.AugAssign, ast.AnnAssign)):
+            tg = [x.target]
+        elif isinstance(x, ast.Call) and isinstance(x.func, ast.Attribute) and \
+                x.func.attr in _MUTATORS:
+            tg = [x.func.value]
+        for t in tg:
+            for e in (t.elts if isinstance(t, (ast.Tuple, ast.List)) else [t]):
+                while isinstance(e, ast.Subscript):
+                    e = e.value
+                if isinstance(e, ast.Attribute) and \
+                        isinstance(e.value, ast.Name) and e.value.id == "self":
+                    out.add(e.attr)
+    return out
+
+
+def _self_calls(fn):
+    return {c.func.attr for c in ast.walk(fn) if isinstance(c, ast.Call) and
+            isinstance(c.func, ast.Attribute) and
+            isinstance(c.func.value, ast.Name) and c.func.value.id == "self"}
+
+
+def derived_state_gaps(model, cls_qual, primary, removers):
+    """Instance attributes of the class that are written outside __init__
+    (state derived from earlier calls: a remembered record, a memo, an index)
+    and that a removing operation neither rewrites nor clears, itself or
+    through the methods of the class it calls.  -> (attrs, [(attr, writer
+    FuncInfo, remover FuncInfo)])"""
+    ci = model.cls(cls_qual)
+    writers = {}
+    for name, fi in sorted(ci.methods.items()):
+        if name == "__init__":
+            continue
+        for a in _self_effects(fi.node):
+            if a not in primary:
+                writers.setdefault(a, fi)
+    gaps = []
+    for r in removers:
+        fi = ci.methods.get(r)
+        if fi is None:
+            continue
+        touched, seen, todo = set(), set(), [r]
+        while todo:
+            n = todo.pop()
+            if n in seen or n not in ci.methods:
+                continue
+            seen.add(n)
+            touched |= _self_effects(ci.methods[n].node)
+            todo.extend(_self_calls(ci.methods[n].node))
+        for a, w in sorted(writers.items()):
+            if a not in touched:
+                gaps.append((a, w, fi))
+    return sorted(writers), gaps
+
+
+_CTL4 = '''
+class Store(object):
+    def __init__(self):
+        self._db = {}
+        self._last = None
+        self._index = {}
+
+    def find(self, k):
+        if self._last is None or self._last[0] != k:
+            self._last = (k, self._db[k])
+        self._index[k] = True
+        return self._last[1]
+
+    def _forget(self, k):
+        self._index.pop(k, None)
+
+    def delete(self, k):
+        del self._db[k]
+        self._forget(k)
+'''
+
+
+def _control_model(src):
+    import os
+    import shutil
+    import tempfile
+    from .srcmodel import Model
+    d = tempfile.mkdtemp(prefix="verif-ctl-")
+    try:
+        pkg = os.path.join(d, "src", "saml2_tophat")
+        os.makedirs(pkg)
+        open(os.path.join(pkg, "__init__.py"), "w").close()
+        with open(os.path.join(pkg, "ctl.py"), "w") as fh:
+            fh.write(src)
+        old = {k: os.environ.get(k) for k in ("VERIF_NO_ALPHA",
+                                              "VERIF_NO_INLINE",
+                                              "VERIF_NO_FUNCRENAME")}
+        os.environ.update({k: "1" for k in old})
+        try:
+            return Model(root=d)
+        finally:
+            for k, v in old.items():
+                if v is None:
+                    os.environ.pop(k, None)
+                else:
+                    os.environ[k] = v
+    finally:
+        shutil.rmtree(d, ignore_errors=True)
+
+
+def derived_state_rule(run, rule, cls_qual, primary, removers, what):
+    run.rule(rule, "whatever %s keeps between calls besides the primary store "
+             "(%s) - a remembered record, a memo, an index written outside "
+             "__init__ - is rewritten or cleared by every removing operation "
+             "(%s), so nothing about a removed entry is answered from a copy" %
+             (what, ", ".join(sorted(primary)), ", ".join(removers)))
+    mm = _control_model(_CTL4)
+    attrs, gaps = derived_state_gaps(mm, "ctl.Store", {"_db"}, ["delete"])
+    run.require(attrs == ["_index", "_last"] and
+                [(a, r.name) for a, w, r in gaps] == [("_last", "delete")],
+                "%s positive control: the stale remembered record of the "
+                "embedded example is not flagged" % rule)
+    ci = run.model.cls(cls_qual)
+    run.require(all(r in ci.methods for r in removers),
+                "%s: removing operation(s) %s of %s vanished" %
+                (rule, removers, cls_qual))
+    attrs, gaps = derived_state_gaps(run.model, cls_qual, primary, removers)
+    for a, w, r in gaps:
+        run.violated(rule, "%s::self.%s::not-invalidated" % (r.qual, a),
+                     "self.%s is written by %s and survives the call, but %s "
+                     "neither rewrites nor clears it: after the removal the "
+                     "next lookup can still be answered from it" %
+                     (a, w.qual, r.qual), w.loc())
+    run.holds(rule, "derived-state", "%d derived attribute(s) %s of %s, each "
+              "invalidated by %s (positive control flagged)" %
+              (len(attrs), attrs, cls_qual, removers), "")
